@@ -17,6 +17,11 @@ def main(path):
     import suites_engine as S
     streams, cur = [], None
     for l, a, b in zip(lines, impl, model):
+        if l.startswith("drv.run"):
+            # whole-driver scenarios run on the implementation only (the model's part is `wl.run` / `eng.*`)
+            print("   " + l[:220])
+            print("     impl : " + a[:600])
+            continue
         same = S.canon(a) == S.canon(b)
         print(("  " if same else "!!") + " " + l[:220])
         print("     impl : " + a[:300])
